@@ -67,7 +67,11 @@ def contract_unit(spec):
     out = {'unit': target, 'function': target, 'kind': c.kind, 'serves': c.serves,
            'undecided': res.undecided, 'paths': res.paths, 'gen_time': res.gen_time,
            'obligations': [], 'notes': c.notes, 'assumes': list(c.assumes)}
-    results = discharge(vc.obls, t_z3=spec.get('t_z3', 40), t_cvc5=spec.get('t_cvc5', 40),
+    # (counter-models of K3 obligations are never replayed -- a schema is searched over its catalogue
+    # instead -- so no model is asked for: on a changed tree with many failing path instances that
+    # saved most of the wall time)
+    results = discharge(vc.obls, want_models=not c.ghost.get('k3'),
+                        t_z3=spec.get('t_z3', 40), t_cvc5=spec.get('t_cvc5', 40),
                         both=(tier == 'thorough'))
     searched = None
     for o, r in zip(vc.obls, results):
